@@ -248,6 +248,8 @@ func c20Race(scen string, bound int) vh.Unit {
 	name := "lifecycle-race/" + scen
 	var w *c20World
 	var res []error
+	var overlap string
+	var newestBefore []int
 	threads := map[string][]string{
 		"start-start":      {"start", "start"},
 		"start-start-stop": {"start", "start"},
@@ -263,12 +265,34 @@ func c20Race(scen string, bound int) vh.Unit {
 			w.a.Start(w.sp)
 		}
 		var fns []func()
+		overlap = ""
+		newestBefore = make([]int, len(threads))
 		for i, t := range threads {
 			i, t := i, t
 			fns = append(fns, func() {
+				// ids are handed out in spawn order: everything spawned before this call is "older"
+				newestBefore[i] = 1 << 30
+				if t == "start" {
+					max := -1
+					for id := range vsched.AliveDaemonInfo() {
+						if id > max {
+							max = id
+						}
+					}
+					newestBefore[i] = max + 1
+				}
 				switch t {
 				case "start":
 					res[i] = w.a.Start(w.sp)
+					if res[i] == nil {
+						// an accepted Start must not find an older loop still idling in its select
+						// (threads that already left the loop are somewhere else)
+						for id, site := range vsched.AliveDaemonInfo() {
+							if id < newestBefore[i] && (site == "select-wait" || site == "select") {
+								overlap = fmt.Sprintf("Start returned nil while an older keep-alive loop (thread %d) was still serving", id)
+							}
+						}
+					}
 				case "stop":
 					w.a.Stop()
 				case "wait":
@@ -305,6 +329,9 @@ func c20Race(scen string, bound int) vh.Unit {
 			},
 			Obs:  func(s *vsched.Sched) string { return fmt.Sprint(res, alive, len(w.sp.updates), w.sp.connects) },
 			Check: func(s *vsched.Sched) (string, string) {
+				if overlap != "" {
+					return "lifecycle-race/start-accepted-while-running", fmt.Sprintf("%s: %s (results %v)", scen, overlap, res)
+				}
 				if alive >= 1 && (followErr != agent.ErrAlreadyStarted || aliveAfter != alive) {
 					return "lifecycle-race/running-agent-started-again", fmt.Sprintf("%s: %d loop(s) alive after the race (results %v), yet a further Start returned %v and %d loops are alive now", scen, alive, res, followErr, aliveAfter)
 				}
